@@ -1202,3 +1202,137 @@ Proof.
   rewrite Hrun in R. inversion R; subst. split; [reflexivity|].
   apply ws_mode_of_closed. congruence.
 Qed.
+
+(* ------------------------------------------------------------------ frames of messages *)
+
+Inductive ws_lform := L7 | L16 | L64.
+Definition ws_lenbytes (lf : ws_lform) (n : Z) : bytes :=
+  match lf with
+  | L7 => [128 + n]
+  | L16 => [254; n / 256; n mod 256]
+  | L64 => [255; 0; 0; 0; 0; (n / 16777216) mod 256; (n / 65536) mod 256; (n / 256) mod 256; n mod 256]
+  end.
+Definition ws_lform_ok (lf : ws_lform) (n : Z) : Prop :=
+  match lf with L7 => n <= 125 | L16 => n < 65536 | L64 => n < 4294967296 end.
+
+(* a masked binary frame as a client sends it (FIN set, opcode 2) *)
+Definition ws_mk_frame (lf : ws_lform) (mask p : bytes) : bytes :=
+  130 :: ws_lenbytes lf (len p) ++ mask ++ ws_xor mask 0 p.
+
+Lemma ws_xor_len mask : forall p i, len (ws_xor mask i p) = len p.
+Proof. induction p as [|b p IH]; intros i; cbn [ws_xor]; [reflexivity|]. rewrite !len_cons, IH. reflexivity. Qed.
+
+Lemma ws_xor_invol mask : wfb mask -> forall p i, wfb p -> ws_xor mask i (ws_xor mask i p) = p.
+Proof.
+  intros Wm. induction p as [|b p IH]; intros i Wp; cbn [ws_xor]; [reflexivity|].
+  apply wfb_cons in Wp. destruct Wp as [Hb Wp]. unfold is_byte in Hb.
+  replace (b <? 0) with false by lia.
+  set (m := nth (Z.to_nat (i mod 4)) mask 0).
+  assert (Hm : 0 <= m).
+  { subst m. destruct (nth_in_or_default (Z.to_nat (i mod 4)) mask 0) as [Hin|Hd]; [|rewrite Hd; lia].
+    unfold wfb in Wm. rewrite Forall_forall in Wm. specialize (Wm _ Hin). unfold is_byte in Wm. lia. }
+  assert (Hx : 0 <= Z.lxor b m) by (apply Z.lxor_nonneg; lia).
+  replace (Z.lxor b m <? 0) with false by lia.
+  rewrite Z.lxor_assoc, Z.lxor_nilpotent, Z.lxor_0_r. rewrite IH by assumption. reflexivity.
+Qed.
+
+Lemma ws_frame_run c lf mask p rest :
+  wsc_server c = true -> len mask = 4 -> wfb mask -> wfb p ->
+  1 <= len p <= wsc_rxbuf c -> ws_lform_ok lf (len p) ->
+  ws_run c (MHdr []) (ws_mk_frame lf mask p ++ rest) =
+  let '(m, e) := ws_run c (MHdr []) rest in (m, WMsg p :: e).
+Proof.
+  intros Hsrv Hlm Wm Wp Hn Hok. set (n := len p) in *.
+  set (lb := ws_lenbytes lf n).
+  set (hd := 130 :: lb ++ mask).
+  assert (Hframe : ws_mk_frame lf mask p ++ rest = hd ++ (ws_xor mask 0 p ++ rest)).
+  { unfold ws_mk_frame, hd. fold n. fold lb. cbn [app]. rewrite <- !app_assoc. reflexivity. }
+  assert (Hlb : exists b1 tl, lb = b1 :: tl /\ 128 <= b1 /\
+              fh_ext (ws_fh b1) = len tl /\ fh_masked (ws_fh b1) = true /\
+              ws_fsize (130 :: lb ++ mask) = n).
+  { subst lb. destruct lf; cbn [ws_lenbytes ws_lform_ok] in *.
+    - exists (128 + n), []. repeat split; try lia.
+      + unfold ws_fh. cbn [fh_ext]. replace ((128 + n) mod 128 =? 127) with false by lia.
+        replace ((128 + n) mod 128 =? 126) with false by lia. reflexivity.
+      + unfold ws_fh. cbn [fh_masked]. lia.
+      + unfold ws_fsize. cbn [app nth]. replace ((128 + n) mod 128 =? 127) with false by lia.
+        replace ((128 + n) mod 128 =? 126) with false by lia. lia.
+    - exists 254, [n / 256; n mod 256].
+      split; [reflexivity|]. split; [lia|]. split; [reflexivity|]. split; [reflexivity|].
+      unfold ws_fsize. cbn [app nth]. change (254 mod 128 =? 127) with false. change (254 mod 128 =? 126) with true.
+      cbv iota. unfold take, drop, ws_be. cbn [Z.to_nat]. change (Pos.to_nat 2) with 2%nat.
+      cbn [skipn firstn fold_left]. lia.
+    - exists 255, [0; 0; 0; 0; (n / 16777216) mod 256; (n / 65536) mod 256; (n / 256) mod 256; n mod 256].
+      split; [reflexivity|]. split; [lia|]. split; [reflexivity|]. split; [reflexivity|].
+      unfold ws_fsize. cbn [app nth]. change (255 mod 128 =? 127) with true. cbv iota.
+      unfold take, drop, ws_be. cbn [Z.to_nat]. change (Pos.to_nat 2) with 2%nat. change (Pos.to_nat 8) with 8%nat.
+      cbn [skipn firstn fold_left]. lia. }
+  destruct Hlb as (b1 & tl & Elb & Hb1 & Hext & Hmask & Hsize).
+  pose proof (ws_fh_hl_range b1) as (_ & _ & Hhl). rewrite Hmask, Hext in Hhl.
+  pose proof (len_nonneg tl) as Htl.
+  assert (Hnth1 : nth 1 hd 0 = b1) by (unfold hd; rewrite Elb; reflexivity).
+  assert (Hlhd : len hd = fh_hl (ws_fh b1)).
+  { unfold hd. rewrite Elb. rewrite len_cons. cbn [app]. rewrite len_cons, len_app. lia. }
+  rewrite Hframe. rewrite ws_run_hdr_done.
+  2:{ rewrite Hlhd. lia. }
+  2:{ unfold ws_hdr_ok. rewrite Hnth1, Hmask. cbn [negb]. rewrite andb_false_r. reflexivity. }
+  2:{ rewrite Hnth1. exact Hlhd. }
+  assert (Hdone : ws_hdr_done c hd = (MBody mask n [], [])).
+  { unfold ws_hdr_done. rewrite Hnth1, Hmask. change (nth 0 hd 0) with 130.
+    change (130 mod 16) with 2. cbn [Z.eqb Pos.eqb negb andb].
+    change (ws_fsize hd) with (ws_fsize (130 :: lb ++ mask)). rewrite Hsize.
+    replace (wsc_rxbuf c <? n) with false by lia. replace (n =? 0) with false by lia.
+    assert (Hmk : take 4 (drop (2 + fh_ext (ws_fh b1)) hd) = mask).
+    { replace (2 + fh_ext (ws_fh b1)) with (len (130 :: lb)) by (rewrite Elb, !len_cons; lia).
+      unfold hd. change (130 :: lb ++ mask) with ((130 :: lb) ++ mask). rewrite drop_app_exact.
+      apply tcp_take_all. lia. }
+    rewrite Hmk. reflexivity. }
+  rewrite Hdone. cbn [app].
+  rewrite (ws_run_body_full c mask n rest (ws_xor mask 0 p) []).
+  2:{ rewrite len_nil. lia. }
+  2:{ rewrite len_nil, ws_xor_len. reflexivity. }
+  cbn [app]. unfold ws_unmask. rewrite Hsrv. rewrite ws_xor_invol by assumption.
+  destruct (ws_run c (MHdr []) rest) as [m e]. reflexivity.
+Qed.
+
+Fixpoint ws_frames_of (l : list (ws_lform * bytes * bytes)) : bytes :=
+  match l with
+  | [] => []
+  | (lf, mask, p) :: tl => ws_mk_frame lf mask p ++ ws_frames_of tl
+  end.
+
+Definition ws_frame_ok (c : ws_cfg) (x : ws_lform * bytes * bytes) : Prop :=
+  let '(lf, mask, p) := x in
+  len mask = 4 /\ wfb mask /\ wfb p /\ 1 <= len p <= wsc_rxbuf c /\ ws_lform_ok lf (len p).
+
+(* C05_ws_frames (automaton): a sequence of frames is delivered as exactly their payloads *)
+Theorem ws_frames_run c : wsc_server c = true -> forall l,
+  Forall (ws_frame_ok c) l ->
+  ws_run c (MHdr []) (ws_frames_of l) = (MHdr [], map (fun x => WMsg (snd x)) l).
+Proof.
+  intros Hsrv. induction l as [|[[lf mask] p] tl IH]; intros H; [reflexivity|].
+  inversion H as [|? ? Hx Htl]; subst. destruct Hx as (H1 & H2 & H3 & H4 & H5).
+  cbn [ws_frames_of map snd]. rewrite ws_frame_run by assumption. rewrite IH by assumption. reflexivity.
+Qed.
+
+(* C05_ws_frames: an accepted handshake followed by frames of messages, arriving in any pieces, is
+   delivered as "connected" and exactly the payloads, in order *)
+Theorem ws_stream_delivered c hs l arr :
+  wsc_fix c = ws_fixed -> ws_drain_buf <= wsc_rxbuf c -> wsc_server c = true ->
+  ws_run c (MHs ws_flags0 []) hs = (MHdr [], [WConnected]) ->
+  Forall (ws_frame_ok c) l -> Forall wfb arr -> concat arr = hs ++ ws_frames_of l ->
+  snd (ws_arrivals c ws_init arr) = WConnected :: map (fun x => WMsg (snd x)) l /\
+  ws_mode_of (fst (ws_arrivals c ws_init arr)) = MHdr [].
+Proof.
+  intros Hfix Hdb Hsrv Hhs Hl W Hc.
+  assert (Hrun : ws_run c (ws_mode_of ws_init) (concat arr) =
+                 (MHdr [], WConnected :: map (fun x => WMsg (snd x)) l)).
+  { rewrite Hc. unfold ws_mode_of, ws_init. cbn [w_closed w_up w_flags w_http negb].
+    rewrite ws_run_app, Hhs. rewrite ws_frames_run by assumption. reflexivity. }
+  assert (Hz : ~ In WZero (snd (ws_run c (ws_mode_of ws_init) (concat arr)))).
+  { rewrite Hrun. cbn [snd In]. intros [E|Hin]; [discriminate|].
+    apply in_map_iff in Hin. destruct Hin as (x & E & _). discriminate. }
+  destruct (ws_arrivals c ws_init arr) as [s1 e1] eqn:H1.
+  destruct (ws_arrivals_spec c Hfix Hdb arr ws_init s1 e1 (ws_init_qinv c) W Hz H1) as (R & _).
+  rewrite Hrun in R. inversion R as [[Hm He]]. cbn [fst snd]. split; congruence.
+Qed.
